@@ -411,7 +411,7 @@ def run_witnesses(ctx):
 class Judge:
     def __init__(self, ctx, spec, real, preds):
         self.ctx, self.spec, self.real, self.preds = ctx, spec, real, preds
-        self.n = {'gen': 0, 'seq': 0, 'bytes': 0, 'random': 0, 'push': 0, 'outside_claim': 0, 'rows': 0, 'row_exceptions': 0,
+        self.n = {'unmatched_predicates': 0, 'gen': 0, 'seq': 0, 'bytes': 0, 'random': 0, 'push': 0, 'outside_claim': 0, 'rows': 0, 'row_exceptions': 0,
                   'inner': 0, 'safety_antecedents': 0, 'truncation_rejected': 0, 'truncation_cases': 0}
         self.names_seen = set()
         self.classes_seen = set()
@@ -448,6 +448,21 @@ class Judge:
             ctx.violation(key, f'{mode} script {src[:60].hex()} is {exp["name"]!r} by its opcodes, the code says {got!r} ({rp["exc"]})', replay)
             return
         if got == 'none':
+            if mode == 'out' and (not src or src[0] in CLAIM_OPS or self.n['unmatched_predicates'] % 7 == 0):
+                # a byte string that matches no template is NOTHING: asked directly (on a fresh object, before anything has
+                # parsed it) no classification predicate may answer yes -- refusing to answer (the parse error) is fine
+                for pred in ('is_claim_involved', 'is_claim_name', 'is_update_claim', 'is_support_claim', 'is_pay_pubkey_hash',
+                             'is_pay_script_hash'):
+                    try:
+                        with watchdog(10):
+                            ans = getattr(real.S.OutputScript(src), pred)
+                    except Exception:  # pylint: disable=broad-except
+                        continue
+                    if ans:
+                        ctx.violation(f'predicate-true-on-unmatched-script:{pred}',
+                                      f'{pred} answers yes for {src[:60].hex()}, which matches no template', dict(replay, predicate=pred))
+                        break
+            self.n['unmatched_predicates'] += 1
             return
         want = spec.expected_values(exp['name'], exp['toks'], exp['bind'])
         if rp['values'] != want:
